@@ -203,13 +203,13 @@ QuoteToASCII(s) == <<34>> \o QuoteBody(s, TRUE) \o <<34>>
 
 (* ---------------------------------------------------------------- fmt verbs on scalars *)
 (* a format is "%" flags(-+0)* width(digits)* verb ; parsed into [minus, plus, zero, wid, verb(byte)] *)
-RECURSIVE ParseFlags(_, _)
-ParseFlags(t, acc) ==
-  IF t # <<>> /\ t[1] \in {45, 43, 48}
-    THEN ParseFlags(Tail(t), [acc EXCEPT !.minus = @ \/ t[1] = 45, !.plus = @ \/ t[1] = 43, !.zero = @ \/ t[1] = 48])
-  ELSE IF t # <<>> /\ IsDigit(t[1]) THEN ParseFlags(Tail(t), [acc EXCEPT !.wid = @ * 10 + (t[1] - 48)])
+RECURSIVE ParseFlags(_, _, _)
+ParseFlags(t, acc, inwid) ==
+  IF ~inwid /\ t # <<>> /\ t[1] \in {45, 43, 48}
+    THEN ParseFlags(Tail(t), [acc EXCEPT !.minus = @ \/ t[1] = 45, !.plus = @ \/ t[1] = 43, !.zero = @ \/ t[1] = 48], FALSE)
+  ELSE IF t # <<>> /\ IsDigit(t[1]) THEN ParseFlags(Tail(t), [acc EXCEPT !.wid = @ * 10 + (t[1] - 48)], TRUE)
   ELSE [acc EXCEPT !.verb = t[1]]
-ParseFmt(f) == ParseFlags(Tail(f), [minus |-> FALSE, plus |-> FALSE, zero |-> FALSE, wid |-> 0, verb |-> 0])
+ParseFmt(f) == ParseFlags(Tail(f), [minus |-> FALSE, plus |-> FALSE, zero |-> FALSE, wid |-> 0, verb |-> 0], FALSE)
 RECURSIVE Fill(_, _)
 Fill(b, n) == IF n <= 0 THEN <<>> ELSE <<b>> \o Fill(b, n - 1)
 PadTo(body, sp) == LET n == RuneCount(body) IN
